@@ -140,25 +140,27 @@ theorem copy_from_slice_eq (W P N : Nat) (value slice : ByteArray) (h : slice.si
   simp [hm, h, ByteArray.size_extract, ByteArray.size_append, h3, ByteArray.extract_zero_size,
     ByteArray.extract_append_eq_left]
 
-/-- The value of `length` after `n` iterations of the char-boundary loop of `copy_from_str`. -/
-def floorSt (s : String) : Nat → Nat → Nat
-  | 0, l => l
-  | n + 1, l => if (String.Pos.Raw.mk l).isValid s then l else floorSt s n (l - 1)
+/-- The state `(length, left by its condition)` after `n` iterations of the char-boundary loop of `copy_from_str`. -/
+def floorSt (s : String) : Nat → Nat × Bool → Nat × Bool
+  | 0, st => st
+  | n + 1, st => if (String.Pos.Raw.mk st.1).isValid s then (st.1, true) else floorSt s n (st.1 - 1, st.2)
 
-theorem floorSt_eq (s : String) (n l : Nat) (h : l ≤ n) : floorSt s (n + 1) l = floorBoundary s l := by
+/-- The loop finds the boundary — and leaves by its own condition — within `l + 1` iterations (position 0 is a
+    boundary). -/
+theorem floorSt_eq (s : String) (n l : Nat) (h : l ≤ n) : floorSt s (n + 1) (l, false) = (floorBoundary s l, true) := by
   induction n generalizing l with
   | zero =>
     have : l = 0 := by omega
     subst this
     have hv : (String.Pos.Raw.mk 0).isValid s = true :=
       String.Pos.Raw.isValid_eq_true_iff.mpr String.Pos.Raw.isValid_zero
-    simp [floorSt, floorBoundary]
+    simp [floorSt, floorBoundary, hv]
   | succ n ih =>
     cases l with
     | zero =>
       have hv : (String.Pos.Raw.mk 0).isValid s = true :=
         String.Pos.Raw.isValid_eq_true_iff.mpr String.Pos.Raw.isValid_zero
-      rw [floorSt]; simp [floorBoundary]
+      rw [floorSt]; simp [floorBoundary, hv]
     | succ k =>
       rw [floorSt, floorBoundary]
       by_cases hv : (String.Pos.Raw.mk (k + 1)).isValid s = true
@@ -183,7 +185,8 @@ theorem copy_from_str_val (W P N : Nat) (value : ByteArray) (s : String) :
     simp only [Option.bind_eq_bind, Option.bind_some, Nat.zero_le, true_and, hle, not_true_eq_false, if_false]
     rw [copy_from_slice_eq _ _ _ _ _ (by rw [hS]; omega), hS]
     rfl
-  · intro n l
+  · intro n st
+    obtain ⟨l, ex⟩ := st
     by_cases hv : (String.Pos.Raw.mk l).isValid s = true
     · simp [floorSt, hv]
     · simp [floorSt, hv]
